@@ -23,7 +23,56 @@ from .fields import check_field_indices, check_stage_chain
 INVERT = {"Sub": "Add", "Add": "Sub", "Mult": "Div", "Div": "Mult"}
 
 
+def _modesel(chk):
+    """arbitrary score arrays: every per-mode container entry combined with the given scores is first selected by
+    the modes of those scores (``.sel(mode=<scores>.mode)``); relying on xarray's alignment breaks for scalar modes"""
+    pm = chk.pm
+    n = 0
+    for fn in pm.all_functions():
+        if fn.cls is None or fn.name not in ("inverse_transform", "_inverse_transform_algorithm"):
+            continue
+        if any(isinstance(s, ast.Raise) for s in fn.node.body):
+            continue
+        ff = FuncFacts.of(fn)
+        params = [p for p in fn.params if p not in ("self", "normalized")]
+        sites = []
+        for b in walk_no_nested(fn.node):
+            opnds = None
+            if isinstance(b, ast.BinOp) and isinstance(b.op, (ast.Mult, ast.Div)):
+                opnds = [b.left, b.right]
+            elif isinstance(b, ast.Call) and isinstance(b.func, ast.Attribute) and b.func.attr == "dot":
+                from .common import dot_operands
+                opnds = dot_operands(b)
+            if not opnds:
+                continue
+            srcs = [ff.paths(o, spine_only=True) for o in opnds]
+            has_scores = [any(p.atom.kind == "param" and p.atom.name in params for p in ps) for ps in srcs]
+            for i, ps in enumerate(srcs):
+                cps = [p for p in ps if p.container_key() is not None and p.atom.name == "self.data"]
+                if not cps or has_scores[i] or not any(has_scores):
+                    continue
+                sites.append((b, cps))
+        for b, cps in sites:
+            n += 1
+            ok = True
+            for p in cps:
+                sels = [o for o in p.ops if o.kind == "method" and o.name == "sel"]
+                good = False
+                for o in sels:
+                    m = {k.arg: k.value for k in o.node.keywords}.get("mode")
+                    if m is not None:
+                        for q in ff.paths(m, spine_only=True):
+                            if q.atom.kind == "param" and q.atom.name in params and q.has_op("attr", "mode"):
+                                good = True
+                ok = ok and good
+            chk.check(ok, "MIRROR.modesel", fn, b,
+                      why="a per-mode entry of the model is combined with user-given scores without selecting it by the scores' own modes "
+                          "(.sel(mode=scores.mode)): for a scalar or partial mode selection xarray broadcasts the entry over all modes")
+    chk.info["modesel_sites"] = n
+
+
 def check(chk):
+    _modesel(chk)
     _affine(chk)
     _stages(chk)
     _scores_identity(chk)
@@ -31,6 +80,7 @@ def check(chk):
     chk.floor("MIRROR.affine", 6)
     chk.floor("MIRROR.stages", 40)
     chk.floor("MIRROR.norms", 8)
+    chk.floor("MIRROR.modesel", 6)
 
 
 def _scaler_steps(chk, fn: FuncInfo):
